@@ -1284,14 +1284,17 @@ static void vbi_proxyd_stop_acq_thread( PROXY_DEV * p_proxy_dev )
          vbi_proxyd_calc_timeout_ms(&tsp, 50);
          ret = pthread_cond_timedwait(&p_proxy_dev->start_cond, &p_proxy_dev->start_mutex, &tsp);
       }
+      /* never leave the thread behind: the caller is about to reconfigure or
+      ** close the device and to re-use the buffer queue; the thread has been
+      ** cancelled, so it exits at its next cancellation point at the latest */
+      while (p_proxy_dev->thread_active)
+         pthread_cond_wait(&p_proxy_dev->start_cond, &p_proxy_dev->start_mutex);
+
+      ret = pthread_join(p_proxy_dev->thread_id, NULL);
       if (ret == 0)
-      {
-         ret = pthread_join(p_proxy_dev->thread_id, NULL);
-         if (ret == 0)
-            dprintf(DBG_MSG, "stop_acq_thread: acq thread killed successfully\n");
-         else
-            dprintf(DBG_MSG, "stop_acq_thread: pthread_join failed: %d (%s)\n", errno, strerror(errno));
-      }
+         dprintf(DBG_MSG, "stop_acq_thread: acq thread killed successfully\n");
+      else
+         dprintf(DBG_MSG, "stop_acq_thread: pthread_join failed: %d (%s)\n", errno, strerror(errno));
    }
 
    close(p_proxy_dev->vbi_fd);
